@@ -63,10 +63,7 @@ def strip_obs(obs):
 def compare(case, impl, model):
     if case["op"] == "machine": return _s.compare(case, impl, model)
     if case["op"] == "tree":
-        for a, b in zip(impl, model):
-            if b.get("err") == "OutOfDomain": return None
-            if a != b: return "implementation %r / model %r" % (a, b)
-        return None
+        return tree_compare(case, impl, model)
     return plain_compare(case, impl, model)
 
 
@@ -137,7 +134,7 @@ def monitor(case, obs):
     if case["op"] == "tree" and case["tree"][0] == "window":
         o = obs[-1]          # the last render of the same window object (rendered one to three times): exactly its content, nothing else
         if "err" in o: return None
-        title, items = case["tree"][1], case["tree"][2]
+        title, items = case["tree"][1], expand_refs(case["tree"])[2]
         w = case["ops"][0][1]
         exp = []
         if title:
